@@ -516,6 +516,7 @@ type frame struct {
 	callBindings []Val         // captured cells of the closure being called (consumed by applyContract)
 	pendingGo    []*ssa.Go     // fork/join model: goroutines that run at the next WaitGroup.Wait
 	fwd          map[*ssa.BasicBlock]map[*ssa.BasicBlock]bool
+	mapOwner     map[ssa.Value]*guardOwner // maps read out of lock-guarded fields (see guardCheck)
 	atBlock      *ssa.BasicBlock // inlined frames: the caller's block when the body was run
 }
 
